@@ -169,7 +169,7 @@ pub fn main(args: &Args) -> ! {
     let dl = deadline(if thorough { 1500 } else { 45 });
     let k = if thorough { 3 } else { 2 };
     let alts: &[crate::sim::Fate] = if thorough { &FATE_ALTS } else { &FATE_ALTS3 };
-    rep.rule = format!("E2 on real endpoints with a harness congestion controller dictating the window (2, 3, 10 datagrams, huge) and with Cubic / NewReno / BBR, incl. ECN-CE marking, Retry, NAT rebinding, migration and key update: every execution with <=k={k} deviations over the fate alphabet in the stated window. At every emission the independent wire decoder classifies the datagram; an ack-eliciting datagram must not leave while bytes-in-flight (probe, read before the poll_transmit call, plus earlier datagrams of the same batch) plus its size reach the window, except loss probes owed (probe), one MTU probe, path-validation packets and CONNECTION_CLOSE. Balance: after completion and a quiet network bytes in flight are 0. No-spurious-loss: E3 over latency x controller x ack-frequency x workload without faults requires lost_packets == 0. Non-trivial = trace differs from the case baseline; distinct = distinct trace hashes.");
+    rep.rule = format!("E2 on real endpoints with a harness congestion controller dictating the window (2, 3, 10 datagrams, huge) and with Cubic / NewReno / BBR, incl. ECN-CE marking, Retry, NAT rebinding, migration and key update: every execution with <=k={k} deviations over the fate alphabet in the stated window. At every emission the independent wire decoder classifies the datagram; an ack-eliciting datagram must not leave while bytes-in-flight (probe, read before the poll_transmit call, plus earlier datagrams of the same batch) plus its size reach the window, except loss probes owed (probe), one MTU probe, path-validation packets and CONNECTION_CLOSE. Balance: after completion and a quiet network bytes in flight are 0, also when the application calls path_changed() at any one step index of the transfer (window oracle applied there too). No-spurious-loss: E3 over latency x controller x ack-frequency x workload without faults requires lost_packets == 0. Non-trivial = trace differs from the case baseline; distinct = distinct trace hashes.");
     let mut cs = mk_cases(thorough);
     if !thorough {
         for c in cs.iter_mut() {
@@ -192,13 +192,30 @@ pub fn main(args: &Args) -> ! {
                         if !thorough && drop.is_some() && (lat != 10 || af) {
                             continue;
                         }
-                        tasks.push((lat, ctl, af, wl, drop));
+                        tasks.push((lat, ctl, af, wl, drop, None));
                     }
                 }
             }
         }
     }
-    let (res, capped) = e3(tasks, dl, |&(lat, ctl, af, wl, drop)| {
+    // the application reports a changed network path (Connection::path_changed: fresh RTT estimate,
+    // controller and MTU discovery) at every step index of a transfer: what is outstanding at that
+    // moment must still leave the accounting exactly once
+    for ctl in [Ctl::Cubic, Ctl::Fixed(12_000), Ctl::Fixed(3600)] {
+        for wl in [Wl::W6, Wl::W2] {
+            for drop in [None, Some(14u64)] {
+                if !thorough && (drop.is_some() && ctl != Ctl::Cubic) {
+                    continue;
+                }
+                for at in (4..(if thorough { 140 } else { 64 })).step_by(if thorough { 1 } else { 2 }) {
+                    for node in [CLIENT, SERVER] {
+                        tasks.push((10, ctl, false, wl, drop, Some((at as u64, node))));
+                    }
+                }
+            }
+        }
+    }
+    let (res, capped) = e3(tasks, dl, |&(lat, ctl, af, wl, drop, pc)| {
         guarded(|| {
             let mut cfg = cfg_by_name("default");
             cfg.latency = Duration::from_millis(lat);
@@ -211,15 +228,19 @@ pub fn main(args: &Args) -> ! {
                     w.fates.insert(d, crate::sim::Fate::Drop);
                 }
             });
-            let done = crate::scen::drive(&mut p, &[], 60_000, Duration::from_secs(900));
+            let script: Vec<(u64, Op)> = pc.iter().map(|(at, n)| (*at, Op::PathChanged(*n))).collect();
+            let done = crate::scen::drive(&mut p, &script, 60_000, Duration::from_secs(900));
             settle_down(&mut p);
             let mut v = vec![];
+            if pc.is_some() {
+                v.extend(cwnd_violations(&p).0);
+            }
             if done && workload_done(&p) {
                 v.extend(balance_violations(&p));
             } else {
                 v.push(("incomplete".into(), "workload did not complete".into()));
             }
-            if drop.is_none() {
+            if drop.is_none() && pc.is_none() {
                 for (node, who) in [(CLIENT, "client"), (SERVER, "server")] {
                     for s in p.w.nodes[node].conns.values() {
                         let st = s.conn.stats().path;
@@ -233,20 +254,22 @@ pub fn main(args: &Args) -> ! {
         })
     });
     rep.exhaustive &= !capped;
-    for ((lat, ctl, af, wl, drop), r) in &res {
+    let mut n_pc = 0u64;
+    for ((lat, ctl, af, wl, drop, pc), r) in &res {
         rep.evaluations += 1;
-        let desc = format!("latency={lat}ms controller={ctl:?} ackfreq={af} wl={wl:?} drop={drop:?}");
+        n_pc += pc.is_some() as u64;
+        let desc = format!("latency={lat}ms controller={ctl:?} ackfreq={af} wl={wl:?} drop={drop:?} path_changed(step,node)={pc:?}");
         match r {
-            Err(e) => rep.violation(Violation { signature: "panic".into(), what: format!("{desc}: panic {e}"), replay: json!({"check":"c12","kind":"balance","lat":lat,"ctl":format!("{ctl:?}"),"af":af,"wl":format!("{wl:?}"),"drop":drop}) }),
+            Err(e) => rep.violation(Violation { signature: "panic".into(), what: format!("{desc}: panic {e}"), replay: json!({"check":"c12","kind":"balance","lat":lat,"ctl":format!("{ctl:?}"),"af":af,"wl":format!("{wl:?}"),"drop":drop,"pc":pc}) }),
             Ok((tr, v)) => {
                 rep.distinct.insert(*tr);
                 for (sig, what) in v {
-                    rep.violation(Violation { signature: sig.clone(), what: format!("{desc}: {what}"), replay: json!({"check":"c12","kind":"balance","lat":lat,"ctl":format!("{ctl:?}"),"af":af,"wl":format!("{wl:?}"),"drop":drop}) });
+                    rep.violation(Violation { signature: sig.clone(), what: format!("{desc}: {what}"), replay: json!({"check":"c12","kind":"balance","lat":lat,"ctl":format!("{ctl:?}"),"af":af,"wl":format!("{wl:?}"),"drop":drop,"pc":pc}) });
                 }
             }
         }
     }
-    rep.part("balance_and_no_spurious_loss", json!({"cases": res.len(), "capped": capped}));
+    rep.part("balance_and_no_spurious_loss", json!({"cases": res.len(), "with_path_changed_call_at_a_step": n_pc, "capped": capped}));
     // balance through the handshake: every drop subset of the first K datagrams, with and without
     // Retry, also with a link slower than the initial probe timeout (Initials are retransmitted
     // before the first answer arrives): whatever was abandoned along the way (packet number
